@@ -278,3 +278,7 @@ fn parse_in_bracket(s: &str, i: usize) -> Result<(VariantPathElement<'_>, usize)
 
     Ok((element, end + 1))
 }
+
+#[cfg(kani)]
+#[path = "/verif/kani/parquet-variant/utils.rs"]
+mod verif_kani;
